@@ -90,9 +90,15 @@ func (s *store) Create(key string, sizeBytes uint64) (*File, error) {
 	return newFile(b.data, &b.sliceMu), nil
 }
 
+// hasFreeSpace reports whether `space` more bytes fit within capacity.
+// Written so that size+space cannot wrap around uint64 (e.g. on a size of 2^64-1).
+func (s *store) hasFreeSpace(space uint64) bool {
+	return space <= s.capacity && s.size <= s.capacity-space
+}
+
 func (s *store) reserveSpace(space uint64) bool {
 	// TODO - consider whether it's a worth optimization to check if we can evict enough data BEFORE we start evicting, as to prevent evicting needlessly.
-	for s.size+space > s.capacity {
+	for !s.hasFreeSpace(space) {
 		if s.evictQueue.Len() == 0 {
 			return false
 		}
